@@ -27,20 +27,57 @@ def gen_cases(seed, tier, n):
         c["params"] = {}
         if i % 3 == 1:
             tracegen.relabel_ranks(c)      # a subset of a job: rank ids are not 0..n-1, and not listed in order
+        if i % 8 == 6:
+            # sub-microsecond resolution: the file holds the case's times divided by 4 (exact binary fractions) and is loaded with
+            # HTA_DISABLE_NS_ROUNDING=1, so the analysis sees fractional times; the ratio is scale invariant, the model runs on the
+            # integer case
+            c["params"]["quarter_us"] = True
+            if c["epoch"] > 10 ** 12:
+                for rk in c["ranks"].values():
+                    for e in rk["events"]:
+                        if "ts" in e:
+                            e["ts"] -= c["epoch"]
+                c["epoch"] = 0
         out.append(c)
     return out
 
 
+def _quarter(case):
+    import copy
+    c = copy.deepcopy(case)
+    for rk in c["ranks"].values():
+        for e in rk["events"]:
+            for k in ("ts", "dur"):
+                if isinstance(e.get(k), int):
+                    e[k] = e[k] / 4.0
+    return c
+
+
 def run_impl(case, d):
-    ta, paths = fw.load_case(case, d)
-    sym = ta.t.symbol_table.get_sym_table()
-    ranks = sorted(ta.t.get_ranks())
-    frames = {r: fw.dump_frame(ta.t.get_trace(r), sym) for r in ranks}
+    import os
+    quarter = bool(case["params"].get("quarter_us"))
+    if quarter:
+        os.environ["HTA_DISABLE_NS_ROUNDING"] = "1"
     try:
-        df = ta.get_comm_comp_overlap(visualize=False)
-        out = {int(rec["rank"]): float(rec["comp_comm_overlap_pctg"]) for rec in df.to_dict("records")}
-    except Exception as e:
-        out = {"error": type(e).__name__ + ": " + str(e)[:200]}
+        ta, paths = fw.load_case(_quarter(case) if quarter else case, d)
+        sym = ta.t.symbol_table.get_sym_table()
+        ranks = sorted(ta.t.get_ranks())
+        frames = {}
+        for r in ranks:
+            df = ta.t.get_trace(r)
+            if quarter:
+                df = df.copy()
+                for k in ("ts", "dur", "end"):
+                    df[k] = df[k] * 4
+            frames[r] = fw.dump_frame(df, sym)
+        try:
+            df = ta.get_comm_comp_overlap(visualize=False)
+            out = {int(rec["rank"]): float(rec["comp_comm_overlap_pctg"]) for rec in df.to_dict("records")}
+        except Exception as e:
+            out = {"error": type(e).__name__ + ": " + str(e)[:200]}
+    finally:
+        if quarter:
+            os.environ.pop("HTA_DISABLE_NS_ROUNDING", None)
     return {"frames": frames, "out": out}
 
 
